@@ -1896,6 +1896,119 @@ func c17Round4b(c *core.Ctx) {
 	}
 	c.Decide(bad == "", "R17.16", "command-period-bounded-before-scaling", "-", fmt.Sprintf("%d scalings of a command parameter to a time.Duration, each behind an upper bound", nMul), "a management handler scales a 64-bit period of the command to a time.Duration without an upper bound ("+bad+"): ExpirationPeriod values above 9223372036854 ms wrap to zero, to another period or to a negative one, the command is answered 200 and the response and rib/list report the wrapped value")
 	c.Floor("R17.16", "scalings of a command parameter to a Duration in fw/mgmt", nMul, 1)
+	// ---- R17.20 … and a 64-bit number of the command that becomes a time.Duration as it is
+	// (nanoseconds) does so only behind an upper bound: from 2^63 on the signed duration is
+	// negative — accepted with 200 and stored (BaseCongestionMarkingInterval)
+	nConv := 0
+	for _, fn := range p.FuncsIn(pkg) {
+		if strings.HasSuffix(p.File(fn.Pos()), "_test.go") {
+			continue
+		}
+		core.Instrs(fn, func(in ssa.Instruction) {
+			cv, ok := in.(*ssa.Convert)
+			if !ok {
+				return
+			}
+			n, isN := cv.Type().(*types.Named)
+			if !isN || n.Obj().Pkg() == nil || n.Obj().Pkg().Path() != "time" || n.Obj().Name() != "Duration" {
+				return
+			}
+			bt, isB := cv.X.Type().Underlying().(*types.Basic)
+			if !isB || bt.Kind() != types.Uint64 {
+				return
+			}
+			// a field of the decoded parameters
+			u, isU := core.Strip(cv.X).(*ssa.UnOp)
+			if !isU {
+				return
+			}
+			if _, path := core.FieldPath(u); len(path) == 0 {
+				// *p with p an optional (pointer) field of the parameters
+				if _, path2 := core.FieldPath(u.X); len(path2) == 0 {
+					return
+				}
+			}
+			if len(core.Refs(cv)) == 1 {
+				if bo, isBo := core.Refs(cv)[0].(*ssa.BinOp); isBo && bo.Op == token.MUL {
+					other := bo.Y
+					if other == ssa.Value(cv) {
+						other = bo.X
+					}
+					if k, isC := core.ConstInt(other); !isC || k != 1 {
+						return // a scaling by a unit above one: R17.16
+					}
+				}
+			}
+			nConv++
+			x := cv.X
+			bounded := &core.Atom{Name: "value ≤ MaxInt64", Match: func(cond ssa.Value) (int, int) {
+				op, a, b, okC := core.Cmp(cond)
+				if !okC {
+					return 0, 0
+				}
+				if _, isC := core.ConstInt(b); !isC {
+					if _, isC2 := b.(*ssa.Const); !isC2 {
+						return 0, 0
+					}
+				}
+				sameField := func(a2, b2 ssa.Value) bool {
+					ua, okA := core.StripConv(a2).(*ssa.UnOp)
+					ub, okB := core.StripConv(b2).(*ssa.UnOp)
+					if !okA || !okB {
+						return false
+					}
+					_, pa := core.FieldPath(ua.X)
+					_, pb := core.FieldPath(ub.X)
+					return len(pa) > 0 && len(pb) > 0 && pa[len(pa)-1] == pb[len(pb)-1]
+				}
+				if !(core.StripConv(a) == core.StripConv(x) || core.Same(a, x) || sameField(a, x)) {
+					return 0, 0
+				}
+				switch op {
+				case token.GTR, token.GEQ:
+					return -1, 1
+				case token.LEQ, token.LSS:
+					return 1, -1
+				}
+				return 0, 0
+			}}
+			root := core.RootOf(fn)
+			fieldName := ""
+			if _, pth := core.FieldPath(u.X); len(pth) > 0 {
+				fieldName = pth[len(pth)-1]
+			}
+			present := &core.Atom{Name: "parameter present", Match: func(cond ssa.Value) (int, int) {
+				op, a, b, okC := core.Cmp(cond)
+				if !okC || (op != token.EQL && op != token.NEQ) {
+					return 0, 0
+				}
+				if core.IsNilConst(a) {
+					a, b = b, a
+				}
+				if !core.IsNilConst(b) {
+					return 0, 0
+				}
+				if _, pth := core.FieldPath(a); fieldName != "" && len(pth) > 0 && pth[len(pth)-1] == fieldName {
+					return core.Iff(op == token.NEQ)
+				}
+				return 0, 0
+			}}
+			g := core.GateDeep(root, []ssa.Instruction{in}, pos(bounded), neg(present))
+			if !g.OK {
+				// the validity-flag idiom: `if bad { valid = false }` … `if !valid { refuse; return }`
+				cuts, per := core.CutEdges(root, pos(bounded), neg(present))
+				for e := range core.FlagCuts(root, []ssa.Instruction{in}) {
+					cuts[e] = true
+				}
+				if per[0] > 0 && core.ReachInstr(root, in, cuts, nil) == nil {
+					g.OK = true
+					g.PerLit = []int{per[0]}
+				}
+			}
+			c.Decide(g.OK && g.PerLit[0] > 0, "R17.20", fmt.Sprintf("command-nanoseconds-bounded:%s:%s", core.FuncName(fn), describeValue(x)), c.Pos(in), "the number becomes a Duration only behind an upper bound", core.FuncName(fn)+" converts "+describeValue(x)+" of the command to a time.Duration without an upper bound: values from 2^63 on become negative durations, the command is answered 200 and the negative interval is stored (it removes the rate limit on congestion marks)")
+		})
+	}
+	c.Extra["command_nanosecond_conversions"] = nConv
 }
 
 // c17DatasetFields — R17.17 "each status dataset lists exactly the current table contents":
